@@ -132,7 +132,15 @@ def run(ctx):
         report_violation(ctx, {"kind": "rt", "known": rt["known"][0]}, key=KEY)
     if rt["column_kinds_as_first_column"] < 26 or rt["batches_read"] == 0:
         raise ToolError("round trip coverage collapsed")
+    # ---- 4. real threads (oracles restricted to what DiskMgr.tla proves for every interleaving; see c21t.rs)
+    tout = ctx.path("threads.json")
+    run_harness(ctx, "vpool", ["c21", "--mode", "threads", "--out", tout], timeout=3000)
+    thr = json.load(open(tout))
+    for v in thr["violations"]:
+        report_violation(ctx, v)
     write_evidence(ctx, "model_checking", {
+        "real_threads": {k: thr[k] for k in thr if k not in ("violations", "samples", "tool_errors", "known")},
+        "real_threads_note": "workers within byte budgets, hogs issuing only over-limit writes, observer + barriers; asserted: used <= live budgets + in-flight bound in every sample, rejected writes change nothing, exact equality and committed <= limit at quiescent points, zero after release. A fitting write refused while a hog's bytes are in flight is the documented add-check-rollback design and is only counted. A breach is a violation; absence proves nothing beyond the schedules that occurred",
         "states": states + sf_states, "transitions": transitions + sf_trans,
         "traces_validated_against_impl": acct["evaluations"] + rt["evaluations"],
         "samples": (acct["samples"][:1] + rt["samples"][:1]) or [histories[0]],
@@ -154,7 +162,7 @@ def run(ctx):
         "OS write failures are real ENOSPC errors from the cfg switch in FileSpillWriter::write (file handle swapped for /dev/full); the writer stays broken afterwards, as modelled",
         "struct-level RefCountedTempFile clones are reached through the cfg-only accessor verif_clone_of (not reachable through the public API)",
         "the limit changes only between writes (with a write in flight TLC exhibits the benign stale-check race, see DiskMgr.tla SetLimit)",
-        "the 2-thread interleavings of write are explored in the model only; the real code is driven sequentially",
+        "the interleavings of write are explored exhaustively in the model only; on the real code they are sampled by uncontrolled OS-thread runs, not enumerated",
         "value equality of batches is Arrow logical equality (ArrayData ==) plus equality of the rendered text; byte-level IPC fidelity is not modelled",
         "after the first occurrence of the known leak in a history the remaining operations are checked by the property-level oracle (used - leak = sum of live sizes, limit, zero after release) because the model's expected values assume the rollback",
     ])
